@@ -32,16 +32,17 @@ def cases(tier, seed):
         yield dict(kind='roundtrip2x2', start=i, stop=min(len(tables), i + 162))
     yield dict(kind='roundtrip3x3')
     yield dict(kind='ids')
-    dims = [('ninst', [1, 2]), ('nbeads', [1, 0, 2]), ('nsamples', [2, 1, 3]), ('units', ['mixed', 'all-mef', 'channel', 'none']),
+    dims = [('ninst', [1, 2]), ('nbeads', [1, 0, 2]), ('nsamples', [2, 1, 3]), ('units', ['mixed', 'all-mef', 'channel', 'none', 'all-rfi']),
             ('cont', ['int', 'float']), ('plot', [False, True]), ('hist', [False, True]), ('outpath', ['default', 'explicit']),
-            ('nfl', [2, 3, 4]), ('cluster', ['all', 'one'])]
+            ('nfl', [2, 3, 4, 11]), ('cluster', ['all', 'one'])]
     if tier == 'quick':
         cfgs = [dict(ninst=1, nbeads=1, nsamples=2, units='mixed', cont='int', plot=True, hist=True, outpath='default', nfl=2, cluster='all'),
                 dict(ninst=1, nbeads=1, nsamples=1, units='all-mef', cont='int', plot=True, hist=False, outpath='explicit', nfl=3, cluster='all'),
                 dict(ninst=2, nbeads=2, nsamples=3, units='mixed', cont='int', plot=False, hist=True, outpath='explicit', nfl=2, cluster='one'),
                 dict(ninst=1, nbeads=0, nsamples=2, units='channel', cont='float', plot=False, hist=False, outpath='default', nfl=2, cluster='all'),
                 dict(ninst=1, nbeads=1, nsamples=1, units='none', cont='int', plot=True, hist=True, outpath='default', nfl=2, cluster='one'),
-                dict(ninst=1, nbeads=1, nsamples=1, units='mixed', cont='int', plot=True, hist=False, outpath='default', nfl=4, cluster='all')]
+                dict(ninst=1, nbeads=1, nsamples=1, units='mixed', cont='int', plot=True, hist=False, outpath='default', nfl=4, cluster='all'),
+                dict(ninst=1, nbeads=1, nsamples=1, units='all-rfi', cont='int', plot=True, hist=True, outpath='default', nfl=11, cluster='one')]
     else:
         cfgs = list(explore.deviations(dims, 1)) + [c for c in explore.deviations(dims, 2) if c['_dev'] == 2 and c['plot'] and (c['nfl'] == 3 or c['hist'])]
     for cfg in cfgs:
@@ -168,11 +169,16 @@ def build(cfg, d):
         inst = insts[k % len(insts)]
         wg.write_fcs(os.path.join(d, 'FCFiles', 'cells%d.fcs' % k), wg.cell_layout(inst, stream=70 + k, container=cfg['cont'], n=820 + 90 * k))
         mine = [b for b in beads if b['inst'] == inst['id']]
-        u = {'mixed': [['MEF', 'RFI'], ['a.u.', None], ['Channel', 'mef']][k % 3], 'all-mef': ['MEF', 'MEF'], 'channel': ['Channel', 'channel'], 'none': [None, None]}[cfg['units']]
+        u = {'mixed': [['MEF', 'RFI'], ['a.u.', None], ['Channel', 'mef']][k % 3], 'all-mef': ['MEF', 'MEF'], 'channel': ['Channel', 'channel'], 'none': [None, None],
+             'all-rfi': ['RFI', 'a.u.']}[cfg['units']]
         if not mine:
             u = [x if (x or '').lower() != 'mef' else 'RFI' for x in u]
+        units = {inst['fl'][0]: u[0], inst['fl'][1]: u[1]}
+        if cfg['units'] == 'all-rfi':
+            for ch in inst['fl'][2:]:
+                units[ch] = 'RFI'              # every fluorescence channel of the instrument is reported
         samples.append(dict(id='S%04d' % (k + 1), inst=inst['id'], beads=mine[0]['id'] if mine else None, file='./FCFiles/cells%d.fcs' % k,
-                            gate_fraction=0.85, units={inst['fl'][0]: u[0], inst['fl'][1]: u[1]}, inst_obj=inst))
+                            gate_fraction=0.85, units=units, inst_obj=inst))
     wb = os.path.join(d, 'experiment.xlsx')
     mcols, ucols = [], []
     for b in beads:
@@ -335,6 +341,21 @@ def run_case(c):
                 bic = [(b['id'], [ch for ch in b['inst_obj']['fl'] if b['mef'].get(ch)]) for b in beads]
                 if check_output(res, 'run', what, wb, outp, d, cfg['plot'], cfg['hist'], dict(c), bic, [s['id'] for s in samples], None):
                     res.ok('run:plot=%s:hist=%s' % (cfg['plot'], cfg['hist']), bool(beads or samples))
+                    # the same workbook analysed a second time (output and figure directories exist now); the working
+                    # directory of the process is not the workbook's directory
+                    for f_ in [outp] + [os.path.join(d, sub_, x) for sub_ in ('plot_beads', 'plot_samples') if os.path.isdir(os.path.join(d, sub_))
+                                        for x in os.listdir(os.path.join(d, sub_))]:
+                        os.remove(f_)
+                    try:
+                        np.random.seed(3)
+                        ui.run(input_path=wb, output_path=outp if cfg['outpath'] == 'explicit' else None, verbose=False, plot=cfg['plot'], hist_sheet=cfg['hist'])
+                    except Exception as e:
+                        res.violation('rerun:raises:%s' % type(e).__name__, '%s raised %s: %s when the same workbook was analysed a second time' % (what, type(e).__name__, e), dict(c))
+                        return res
+                    finally:
+                        plt.close('all')
+                    if check_output(res, 'rerun', what + ' [second run]', wb, outp, d, cfg['plot'], cfg['hist'], dict(c), bic, [s['id'] for s in samples], None):
+                        res.ok('rerun:plot=%s:hist=%s' % (cfg['plot'], cfg['hist']), True)
             res.sample({'configuration': {k_: v for k_, v in cfg.items()}})
         elif k == 'example':
             src = os.path.join(os.environ.get('FCVERIF_REPO', '/repo'), 'examples')
